@@ -1,1 +1,227 @@
-// harnesses for c18
+// Kani harnesses for property C18:
+// "Element containers never duplicate, leak or touch a moved-out element".
+//
+// Layout of this crate
+//   h.rs        ownership-tracking element type `Tok`, ghost state tables, the per-type `spec!` table
+//   h/iter.rs   B: `IntoIter` as a data structure (all pull histories, drop at any moment)
+//   h/obs.rs    C: observers (PartialEq / Hash / Debug) on a partially consumed `IntoIter`
+//   h/conv.rs   D: vector conversions (arrays, tuples, FromIterator, from_slice)
+//   h/mat.rs    D/E: matrix array conversions and matrix slice views
+//   h/views.rs  E: vector slice views (as_slice, as_mut_slice, Deref, AsRef, Borrow, ...)
+//   h/guards.rs F: vacuity guards (harnesses that must FAIL)
+//
+// Every harness is a separate CBMC run, so the ghost tables start from their initial value in each.
+
+use core::fmt;
+use core::hash::{Hash, Hasher};
+use core::marker::PhantomData;
+
+// ---------------------------------------------------------------------------------------------
+// A. Ownership-tracking element type
+// ---------------------------------------------------------------------------------------------
+
+/// Token states (ghost table, indexed by token id).
+pub const LIVE: u8 = 0; // owned by a container (vector, matrix, array, tuple, iterator)
+pub const HANDED: u8 = 1; // yielded by a consuming iterator: now owned by the caller
+pub const DROPPED: u8 = 2; // dropped exactly once while owned by a container
+pub const DROPPED_BY_CALLER: u8 = 3; // dropped exactly once after having been handed to the caller
+
+/// A ghost table `static mut [u8; SIZE]` of token states indexed by id.
+///
+/// There is one table per size class instead of one global `[u8; 256]`: an array updated at a
+/// symbolic index costs CBMC ~3.9k SAT clauses per entry and per history (measured on
+/// c18_iter_history_vec8: 256 entries 1.36M clauses / 28 s solver, 16 entries 0.42M / 4.4 s), so each
+/// harness uses the smallest table that holds its ids. (Two u64/u128 bit masks were measured too:
+/// not cheaper than a small array.) An id outside the table is an index-out-of-bounds failure.
+pub trait Space: 'static {
+    /// ids >= FIRST_DEFAULT are handed out by `Default` (needed by `FromIterator`: `T: Default`).
+    const FIRST_DEFAULT: u8;
+    fn get(id: u8) -> u8;
+    fn set(id: u8, s: u8);
+    fn fresh_default() -> u8;
+    fn next_default() -> u8;
+}
+
+macro_rules! space {
+    ($S:ident, $m:ident, $size:expr, $first_default:expr) => {
+        pub mod $m {
+            pub static mut ST: [u8; $size] = [super::LIVE; $size];
+            pub static mut NEXT_DEFAULT: u8 = $first_default;
+        }
+        pub struct $S;
+        impl Space for $S {
+            const FIRST_DEFAULT: u8 = $first_default;
+            #[inline(always)]
+            fn get(id: u8) -> u8 {
+                unsafe { $m::ST[id as usize] }
+            }
+            #[inline(always)]
+            fn set(id: u8, s: u8) {
+                unsafe { $m::ST[id as usize] = s }
+            }
+            fn fresh_default() -> u8 {
+                unsafe {
+                    let id = $m::NEXT_DEFAULT;
+                    $m::NEXT_DEFAULT += 1;
+                    id
+                }
+            }
+            fn next_default() -> u8 {
+                unsafe { $m::NEXT_DEFAULT }
+            }
+        }
+    };
+}
+// S<N>: ids 0..N and one sentinel id N that nobody may touch; no defaults (calling default() is out of bounds).
+space!(S2, s2, 3, 3);
+space!(S3, s3, 4, 4);
+space!(S4, s4, 5, 5);
+space!(S8, s8, 9, 9);
+space!(S9, s9, 10, 10);
+space!(S16, s16, 17, 17);
+space!(S32, s32, 33, 33);
+space!(S64, s64, 65, 65);
+// SD<N>: explicit ids 0..N+2, default ids N+2..2N+2, one sentinel.
+space!(SD2, sd2, 7, 4);
+space!(SD3, sd3, 9, 5);
+space!(SD4, sd4, 11, 6);
+space!(SD8, sd8, 19, 10);
+space!(SD16, sd16, 35, 18);
+space!(SD32, sd32, 67, 34);
+space!(SD64, sd64, 131, 66);
+
+/// NOT Copy, NOT Clone.
+pub struct Tok<S: Space> {
+    pub id: u8,
+    _s: PhantomData<S>,
+}
+
+#[inline(always)]
+pub fn st<S: Space>(id: u8) -> u8 {
+    S::get(id)
+}
+
+impl<S: Space> Tok<S> {
+    #[inline(always)]
+    pub fn new(id: u8) -> Self {
+        Tok { id, _s: PhantomData }
+    }
+}
+
+impl<S: Space> Drop for Tok<S> {
+    fn drop(&mut self) {
+        let s = S::get(self.id);
+        assert!(s < DROPPED, "C18: an element was dropped twice");
+        S::set(self.id, s + 2); // LIVE -> DROPPED, HANDED -> DROPPED_BY_CALLER
+    }
+}
+
+/// `Default` hands out fresh ids FIRST_DEFAULT, FIRST_DEFAULT + 1, ...
+impl<S: Space> Default for Tok<S> {
+    fn default() -> Self {
+        Tok::new(S::fresh_default())
+    }
+}
+
+// Observers: being called on a token that is not LIVE (i.e. that was already yielded to the
+// caller, and possibly dropped by it) is a violation of C18.
+impl<S: Space> PartialEq for Tok<S> {
+    fn eq(&self, other: &Self) -> bool {
+        assert!(S::get(self.id) == LIVE, "C18: PartialEq read an element that was already moved out");
+        assert!(S::get(other.id) == LIVE, "C18: PartialEq read an element that was already moved out");
+        self.id == other.id
+    }
+}
+impl<S: Space> Eq for Tok<S> {}
+
+impl<S: Space> Hash for Tok<S> {
+    fn hash<H: Hasher>(&self, h: &mut H) {
+        assert!(S::get(self.id) == LIVE, "C18: Hash read an element that was already moved out");
+        h.write_u8(self.id);
+    }
+}
+
+impl<S: Space> fmt::Debug for Tok<S> {
+    fn fmt(&self, f: &mut fmt::Formatter) -> fmt::Result {
+        assert!(S::get(self.id) == LIVE, "C18: Debug read an element that was already moved out");
+        f.write_str("T")
+    }
+}
+
+/// The caller receives a yielded token: it must be the expected one and must not have been
+/// handed out or dropped before (LIVE -> HANDED).
+pub fn receive<S: Space>(t: &Tok<S>, expect: usize) {
+    assert!(t.id as usize == expect, "C18: iterator yielded the wrong element");
+    assert!(S::get(t.id) == LIVE, "C18: element yielded twice or after being dropped");
+    S::set(t.id, HANDED);
+}
+
+/// `receive`, then the caller drops the token (-> DROPPED_BY_CALLER; a later drop of the same id
+/// by anybody trips the assertion in `Tok::drop`).
+pub fn take<S: Space>(t: Tok<S>, expect: usize) {
+    receive(&t, expect);
+    drop(t);
+    assert!(S::get(expect as u8) == DROPPED_BY_CALLER);
+}
+
+/// All ids in `lo..hi` are in state `s`.
+pub fn all_in_state<S: Space>(lo: usize, hi: usize, s: u8) -> bool {
+    let mut ok = true;
+    let mut i = lo;
+    while i < hi {
+        ok &= S::get(i as u8) == s;
+        i += 1;
+    }
+    ok
+}
+
+/// A hasher without loops (the derived `Hash` impls only reach `write_u8` / `write_usize`).
+pub struct NullHasher(pub u64);
+impl Hasher for NullHasher {
+    fn finish(&self) -> u64 {
+        self.0
+    }
+    fn write(&mut self, bytes: &[u8]) {
+        self.0 = self.0.wrapping_add(bytes.len() as u64);
+    }
+    fn write_u8(&mut self, i: u8) {
+        self.0 = self.0.wrapping_mul(31).wrapping_add(i as u64);
+    }
+    fn write_usize(&mut self, i: usize) {
+        self.0 = self.0.wrapping_mul(31).wrapping_add(i as u64);
+    }
+}
+
+// ---------------------------------------------------------------------------------------------
+// Per-type table: `spec!(Type, callback, names...)` expands to
+//   callback!{ [names...] Type N UNWIND S SD (fields...) (ids...) }
+// UNWIND = N + 3 (a history of N + 2 steps plus loop exit); S / SD: ghost tables for N tokens.
+// ---------------------------------------------------------------------------------------------
+macro_rules! spec {
+    (Vec2, $cb:ident, $($a:ident),*) => { $cb!{ [$($a)*] Vec2 2 5 S2 SD2 (x y) (0 1) } };
+    (Vec3, $cb:ident, $($a:ident),*) => { $cb!{ [$($a)*] Vec3 3 6 S3 SD3 (x y z) (0 1 2) } };
+    (Vec4, $cb:ident, $($a:ident),*) => { $cb!{ [$($a)*] Vec4 4 7 S4 SD4 (x y z w) (0 1 2 3) } };
+    (Extent2, $cb:ident, $($a:ident),*) => { $cb!{ [$($a)*] Extent2 2 5 S2 SD2 (w h) (0 1) } };
+    (Extent3, $cb:ident, $($a:ident),*) => { $cb!{ [$($a)*] Extent3 3 6 S3 SD3 (w h d) (0 1 2) } };
+    (Rgb, $cb:ident, $($a:ident),*) => { $cb!{ [$($a)*] Rgb 3 6 S3 SD3 (r g b) (0 1 2) } };
+    (Rgba, $cb:ident, $($a:ident),*) => { $cb!{ [$($a)*] Rgba 4 7 S4 SD4 (r g b a) (0 1 2 3) } };
+    (Uv, $cb:ident, $($a:ident),*) => { $cb!{ [$($a)*] Uv 2 5 S2 SD2 (u v) (0 1) } };
+    (Uvw, $cb:ident, $($a:ident),*) => { $cb!{ [$($a)*] Uvw 3 6 S3 SD3 (u v w) (0 1 2) } };
+    (Vec8, $cb:ident, $($a:ident),*) => { $cb!{ [$($a)*] Vec8 8 11 S8 SD8
+        (0 1 2 3 4 5 6 7) (0 1 2 3 4 5 6 7) } };
+    (Vec16, $cb:ident, $($a:ident),*) => { $cb!{ [$($a)*] Vec16 16 19 S16 SD16
+        (0 1 2 3 4 5 6 7 8 9 10 11 12 13 14 15) (0 1 2 3 4 5 6 7 8 9 10 11 12 13 14 15) } };
+    (Vec32, $cb:ident, $($a:ident),*) => { $cb!{ [$($a)*] Vec32 32 35 S32 SD32
+        (0 1 2 3 4 5 6 7 8 9 10 11 12 13 14 15 16 17 18 19 20 21 22 23 24 25 26 27 28 29 30 31)
+        (0 1 2 3 4 5 6 7 8 9 10 11 12 13 14 15 16 17 18 19 20 21 22 23 24 25 26 27 28 29 30 31) } };
+    (Vec64, $cb:ident, $($a:ident),*) => { $cb!{ [$($a)*] Vec64 64 67 S64 SD64
+        (0 1 2 3 4 5 6 7 8 9 10 11 12 13 14 15 16 17 18 19 20 21 22 23 24 25 26 27 28 29 30 31 32 33 34 35 36 37 38 39 40 41 42 43 44 45 46 47 48 49 50 51 52 53 54 55 56 57 58 59 60 61 62 63)
+        (0 1 2 3 4 5 6 7 8 9 10 11 12 13 14 15 16 17 18 19 20 21 22 23 24 25 26 27 28 29 30 31 32 33 34 35 36 37 38 39 40 41 42 43 44 45 46 47 48 49 50 51 52 53 54 55 56 57 58 59 60 61 62 63) } };
+}
+
+mod conv;
+mod guards;
+mod iter;
+mod mat;
+mod obs;
+mod views;
